@@ -93,6 +93,45 @@ def _check_one(f, ch):
     return got
 
 
+_SUB = """
+import sys, types, json
+repo = sys.argv[1]
+m = types.ModuleType('eolib'); m.__path__ = [repo + '/src/eolib']; sys.modules['eolib'] = m
+from eolib.encrypt.server_verification_utils import server_verification_hash as f
+out = []
+for ch in json.loads(sys.argv[2]):
+    try:
+        out.append(f(ch))
+    except Exception as e:
+        out.append('raised ' + type(e).__name__)
+print(json.dumps(out))
+"""
+
+
+def _optimized_interpreter(res):
+    """Configuration spot check: the same arithmetic under `python -O` / `-OO` (assert statements and
+    docstrings stripped) on the repository's 15 vector inputs, a stride over the whole range and the
+    neighbourhood of the sign change."""
+    import json
+    import subprocess
+    import sys
+    from vlib.runner import REPO
+    chs = sorted(set([ch for ch, _ in VECTORS] + list(range(0, N_CHALLENGES, 4099)) +
+                     list(range(11092000, 11092600)) + [N_CHALLENGES - 1]))
+    for flag in ("-O", "-OO"):
+        r = subprocess.run([sys.executable, "-B", flag, "-c", _SUB, REPO, json.dumps(chs)],
+                           capture_output=True, text=True)
+        if r.returncode != 0:
+            raise RuntimeError(f"python {flag} helper failed: {r.stderr[-800:]}")
+        got = json.loads(r.stdout.strip().splitlines()[-1])
+        res.extra["optimized_interpreter_calls"] = res.extra.get("optimized_interpreter_calls", 0) + len(chs)
+        for ch, g in zip(chs, got):
+            if g != ref_hash(ch):
+                res.violation(Violation("hash_under_optimized_interpreter", {"challenge": ch, "pyflag": flag},
+                                        ref_hash(ch), g, f"python {flag}"))
+                return
+
+
 def run_task(task):
     c = loader.core()
     f = c.verification.server_verification_hash
@@ -115,6 +154,24 @@ def run_task(task):
             cc = ch + 1
             if (11092004 - cc) % ((cc % 11 + 1) * 119) == 0:
                 exact += 1
+    # the hash is a pure function: asking again (immediately, and later in reverse order) must give
+    # the same answer - exercised on a strided subset of the shard
+    sub = list(range(lo, hi, 61))
+    rep = 0
+    for ch in sub + sub[::-1]:
+        for _ in range(2):
+            rep += 1
+            try:
+                got = f(ch)
+            except Exception as e:  # noqa
+                got = f"raised {type(e).__name__}"
+            if got != ref_hash(ch) and "repeat" not in seen_clause:
+                seen_clause.add("repeat")
+                res.violation(Violation("hash_independent_of_call_history", {"challenge": ch, "repeat": True},
+                                        ref_hash(ch), got, "same challenge asked again"))
+    res.extra["repeated_calls"] = rep
+    if task["idx"] == 0:
+        _optimized_interpreter(res)
     n = hi - lo
     res.evaluations += n
     res.nt_count += neg
@@ -151,4 +208,28 @@ def finalize(m, tier):
 
 def replay(case):
     c = loader.core()
-    _check_one(c.verification.server_verification_hash, int(case["challenge"]))
+    f = c.verification.server_verification_hash
+    ch = int(case["challenge"])
+    if case.get("pyflag"):
+        class _R:
+            extra = {}
+            violations = []
+
+            def violation(self, v):
+                raise v
+        import json
+        import subprocess
+        import sys
+        from vlib.runner import REPO
+        r = subprocess.run([sys.executable, "-B", case["pyflag"], "-c", _SUB, REPO, json.dumps([ch])],
+                           capture_output=True, text=True)
+        got = json.loads(r.stdout.strip().splitlines()[-1])[0]
+        if got != ref_hash(ch):
+            raise Violation("hash_under_optimized_interpreter", case, ref_hash(ch), got)
+        return
+    _check_one(f, ch)
+    if case.get("repeat"):
+        for _ in range(3):
+            got = f(ch)
+            if got != ref_hash(ch):
+                raise Violation("hash_independent_of_call_history", case, ref_hash(ch), got)
